@@ -127,10 +127,16 @@ impl Property for C06 {
         let size = r.reach() + size_of(&c.layers);
         let tol_p = back_tol_p(size, &c.layers);
         let tol_a = 1e-6 + 1e-9;
+        // With the CONSTRAINT_CENTERED marker (outside the property's "finite previous vectors") the documentation says previous means
+        // the constraint centres: J6 may be the marker's own sixth element (0.0) or the centre of the J6 range.
+        let sentinel_j6_centre: Option<f64> = match (&c.prev, &c.j6_window, entry) {
+            (PrevGen::Centered, Some((_, c6, _)), 1 | 3) => Some(*c6),
+            _ => None,
+        };
         for s in &sols {
             ensure!(s.iter().all(|x| x.is_finite()), "answers are finite", "{}: {:?}", what, s);
             ensure!(
-                s[5].to_bits() == want_j6.to_bits() || (s[5] == 0.0 && want_j6 == 0.0),
+                s[5].to_bits() == want_j6.to_bits() || (s[5] == 0.0 && want_j6 == 0.0) || sentinel_j6_centre.map(|c6| (s[5] - c6).abs() <= 1e-9).unwrap_or(false),
                 "joint 6 carries exactly the caller's value",
                 "{}: J6 = {} but the caller's value is {} (answer {:?}) [stack {}]",
                 what,
@@ -158,6 +164,8 @@ impl Property for C06 {
             Some((_, c6, w)) => circ_dist(want_j6, *c6) <= w - 1e-9,
             None => true,
         };
+        // (with the marker, an implementation that takes the centre as J6 always has an admitted J6; one that takes the marker's 0.0 may
+        // not: completeness is then asserted only when 0.0 is admitted as well, which holds for both readings)
         if !j6_admitted && src.is_some() {
             ctx.exclude("the caller's J6 is outside the J6 limits: nothing need be returned");
         }
